@@ -296,9 +296,11 @@ def exec1 : Nat → SI → LexSt → LexSt × Option PC
       ({ s with stack := listSet s.stack s.top.toNat st, top := s.top + 1, p := s.p + 1, cs := fnext }, none)
     else (s.setFault "stack index", none)
   | _, .ret n, s =>
-    let t := if s.top - n < 0 then 0 else s.top - n
-    let cs := if t < (s.stack.length : Int) then (s.stack[t.toNat]?).getD s.cs else s.cs
-    ({ s with top := t, cs := cs, p := s.p + 1 }, none)
+    if s.top < n then ({ s with top := 0, p := s.p + 1 }, none)
+    else
+      let t := s.top - n
+      if 0 ≤ t ∧ t < (s.stack.length : Int) then ({ s with top := t, cs := (s.stack[t.toNat]?).getD s.cs, p := s.p + 1 }, none)
+      else (s.setFault "stack index", none)
   | _, .grow, s => (growStack s, none)
   | _, .err, s =>
     let (s, c) := s.byteAt d s.p
